@@ -32,7 +32,7 @@ def decode(data: bytes) -> dict:
             for _ in range(d.i(0, 2)):
                 body.append(["wait"] if d.p(0.55) else ["yield", d.i(1, 3)])
             prog["steps"].append({"op": "consumer", "body": body, "end": d.pick(["ret", "ret", "raise"]), "n": d.i(1, 2),
-                                  "swallow": d.p(0.1)})
+                                  "swallow": d.p(0.1), "nested": d.p(0.15)})
         elif r < 46:
             prog["steps"].append({"op": "agen", "how": d.pick(["aclose", "aclose", "exhaust", "throw"])})
         elif r < 60:
@@ -86,6 +86,25 @@ class QRun:
     async def consumer(self, rec: dict, spec: dict) -> None:
         q = self.q
         rec["state"] = "waiting"
+        if spec.get("nested") and not rec.get("inner"):
+            # one task holding two items at once: a block inside a block
+            try:
+                async with q as outer:
+                    self.entries += 1
+                    self.items_seen.append(outer)
+                    self.labels.add("nested-blocks")
+                    rec["inner"] = True
+                    try:
+                        await self.consumer(rec, dict(spec, nested=False))
+                    finally:
+                        self.exits += 1
+                        self.zero_check()
+            except asyncio.CancelledError:
+                raise
+            except ValueError as e:
+                self.fail("mark/task_done-called-too-often", str(e))
+            rec["state"] = "exited"
+            return
         try:
             async with q as item:
                 rec["state"] = "inbody"
